@@ -31,7 +31,9 @@ def spec(b):
         extra.append("-DAMC_NONSTD_FEATURES")
     if b[2]:
         extra.append("-DNDEBUG")
-    return {"name": "script_" + bname(b), "source": '#include "script_main.cpp"\n', "std": b[0], "compiler": "g++", "san": "ubsan", "opt": b[3], "extra": extra}
+    return {"name": "script_" + bname(b), "source": '#include "script_main.cpp"\n', "std": b[0], "compiler": "g++",
+            # the pre-C++17 builds select amc's own emulations of the memory algorithms: run them under ASan+LSan as well
+            "san": "asan" if b[0] in ("c++11", "c++14") else "ubsan", "opt": b[3], "extra": extra}
 
 
 def offers(b, section):
@@ -139,7 +141,7 @@ def run(tier, nscripts):
             "samples": sample or ["(no transcript)"],
             "rule": ("%d generated scripts (fixed seeds derived from VERIF_SEED, 60 operations each, 8 container kinds in the standard section, 4 in the extras section, "
                      "3 SmallSet kinds, FlatSet node scripts, 3 vector kinds with an element whose k-th copy throws) are run by every build of the matrix {c++11,14,17,20} x {extras, pedantic} x {assert, NDEBUG} x {-O0,-O2} "
-                     "(%d builds in this tier, all under UBSan); each section's transcript is compared byte for byte across all builds that offer it; feature probes "
+                     "(%d builds in this tier, all under UBSan, the C++11/14 ones also under ASan/LSan); each section's transcript is compared byte for byte across all builds that offer it; feature probes "
                      "(detection idiom) and compile-must-fail probes decide absence. distinct = (build, section, script kind)" % (nscripts, len(builds))),
         }
         return cov, viols, inconc
